@@ -9,6 +9,7 @@ package channelsubscriptions
 //@   invariant subscriptionsLk [callbacks-nonnil] {C17} forall k datatransfer.ChannelID, i int :: has(self.subscriptions, k) && 0 <= i && i < len(self.subscriptions[k]) ==> self.subscriptions[k][i] != nil
 
 //@ func (*channelsubscriptions.ChannelSubscriptions).Subscribe {C17,C20}
+//@   acquires {C20} ChannelSubscriptions.subscriptionsLk
 //@   requires [callback-nonnil] cb != nil
 //@   modifies cs.subscriptions
 //@   guarantee [appends-for-this-channel] forall k datatransfer.ChannelID :: (k != chid ==> has(self.subscriptions, k) == old(has(self.subscriptions, k)) &&
@@ -17,6 +18,7 @@ package channelsubscriptions
 
 
 //@ func (*channelsubscriptions.ChannelSubscriptions).subscriber {C17,C20}
+//@   acquires {C20} ChannelSubscriptions.subscriptionsLk
 //@   requires state != nil
 //@   modifies cs.subscriptions
 //@   loop 0 invariant [in-order] $i >= 0
